@@ -53,7 +53,7 @@ impl<'a, 'b> SchemerContext<'a, 'b> {
 
         for (k, v) in mt.vs.iter() {
             let schema = self.convert_to_schema(v, None)?;
-            let ty = if v.has_optional() && !v.is_any() {
+            let ty = if v.has_optional() {
                 schema.optional()
             } else {
                 schema.required()
@@ -66,7 +66,7 @@ impl<'a, 'b> SchemerContext<'a, 'b> {
         if let Some(it) = &mt.indexed_properties {
             let k = self.convert_to_schema(&it.key, None)?;
             let schema = self.convert_to_schema(&it.value, None)?;
-            let ty = if it.value.has_optional() && !it.value.is_any() {
+            let ty = if it.value.has_optional() {
                 schema.optional()
             } else {
                 schema.required()
@@ -272,8 +272,8 @@ impl<'a, 'b> SchemerContext<'a, 'b> {
             return Ok(Runtype::never());
         }
         // the top type (any / unknown) is not the union of the kinds the engine tells apart: it also
-        // holds what has no tag of its own (functions, symbols), and as a property type it does not
-        // make the property optional
+        // holds what has no tag of its own (functions, symbols); as a property type it leaves the
+        // property optional, since `x?: unknown` is among the types that arrive here
         if ty.is_any() {
             return Ok(Runtype::any());
         }
